@@ -113,7 +113,28 @@ impl UState {
         UState { lg_union, u: CpcUnion::new(lg_union), ref_lg: lg_union, ref_m: vec![0; 1 << lg_union] }
     }
 
+    /// Model precondition (as in C05): the union's result must not hold more coupons than a
+    /// sketch of that lg_k can reach below a 57th window move.
+    pub fn allows(&self, i: usize, pool: &[Member]) -> bool {
+        let m = &pool[i];
+        if m.m.iter().all(|w| *w == 0) {
+            return true;
+        }
+        let new_lg = self.ref_lg.min(m.lg_k);
+        let cur = fold(&self.ref_m, new_lg);
+        let inc = fold(&m.m, new_lg);
+        let c: u32 = cur.iter().zip(inc.iter()).map(|(a, b)| (a | b).count_ones()).sum();
+        c <= cpcm::max_coupons(new_lg)
+    }
+
     pub fn apply(&mut self, i: usize, pool: &[Member], edges: &mut BTreeMap<String, u64>) -> Vec<(String, String)> {
+        match catch(|| self.apply_inner(i, pool, edges)) {
+            Ok(v) => v,
+            Err(p) => vec![(format!("panic|{}", p.site_key()), format!("update({}) or a following accessor panicked: {} at {}:{}", pool[i].label, p.message, p.file, p.line))],
+        }
+    }
+
+    fn apply_inner(&mut self, i: usize, pool: &[Member], edges: &mut BTreeMap<String, u64>) -> Vec<(String, String)> {
         let m = &pool[i];
         let before_coupons = self.ref_m.iter().map(|w| w.count_ones()).sum::<u32>();
         let before_flavor = cpcm::flavor_of(self.ref_lg, before_coupons);
@@ -271,6 +292,10 @@ pub fn explore(ctx: &Ctx, obs: &Observer) {
             }
         }
         let mut s0 = UState::new(lgu);
+        if !s0.allows(i, &pool) {
+            ctx.count("ops refused by the model precondition (coupon cap)", 1);
+            return;
+        }
         let vs = s0.apply(i, &pool, &mut e);
         ctx.add_transitions(1);
         ctx.add_states(1);
@@ -280,6 +305,10 @@ pub fn explore(ctx: &Ctx, obs: &Observer) {
         obs(ctx, &s0, &|| replay_json(lgu, &[i], &pool));
         for j in 0..n {
             let mut s1 = s0.clone();
+            if !s1.allows(j, &pool) {
+                ctx.count("ops refused by the model precondition (coupon cap)", 1);
+                continue;
+            }
             let vs = s1.apply(j, &pool, &mut e);
             ctx.add_transitions(1);
             ctx.add_states(1);
@@ -324,6 +353,9 @@ pub fn explore(ctx: &Ctx, obs: &Observer) {
             depth,
             200_000,
             |s: &UState, &i: &usize, path: &[u16]| {
+                if !s.allows(i, pool) {
+                    return Step::Refused;
+                }
                 let mut n = s.clone();
                 let mut e = BTreeMap::new();
                 let vs = n.apply(i, pool, &mut e);
